@@ -56,6 +56,7 @@ type Config struct {
 	GateBoost         []int  `json:"gate_boost,omitempty"`          // site classes (site id mod 16) with a boosted chance
 	GateBoostPermille int    `json:"gate_boost_permille,omitempty"` // that chance
 	GateScope         string `json:"gate_scope,omitempty"`          // "control": only operations of the service (control-plane) code are preemption points
+	DstLinger         bool   `json:"dst_linger,omitempty"`         // a destination write may stay "in the call" after the plugin has the records: acknowledgments can overtake the return of Write
 	GateTimeMs        int    `json:"gate_time_ms,omitempty"`        // simulated time that may pass in total while goroutines stay preempted
 }
 
@@ -175,6 +176,9 @@ func GenConfig(seed int64, family string) *Config {
 		c.GateTimeMs = pick(r, 0, 100, 400)
 		c.GateBoost, c.GateBoostPermille = nil, 0
 	}
+	// (drawn after everything else) a stream Send returns when the transport has taken the
+	// message; the plugin may answer before the caller runs again
+	c.DstLinger = r.IntN(2) == 0
 	return c
 }
 
